@@ -292,6 +292,21 @@ class PArr(object):
     def _astype(self, I, fr, args, kwargs):
         dt = as_dtype(args[0] if args else kwargs['dtype'])
         copy = kwargs.get('copy', True)
+        casting = kwargs.get('casting', 'unsafe')
+        src = self.buf.dtype
+        order = {'bool': 0, 'int': 1, 'float': 2, 'complex': 3}
+        if src.kind in order and dt.kind in order:
+            safe = order[src.kind] <= order[dt.kind] and (DT._SIZE[src.name] <= DT._SIZE[dt.name] or src.kind != dt.kind and src.kind in ('bool',))
+            if src.kind == 'int' and dt.kind == 'float':
+                safe = DT._SIZE[dt.name] > DT._SIZE[src.name] or DT._SIZE[dt.name] >= 8
+            same_kind = order[src.kind] <= order[dt.kind]
+            if casting == 'safe' and not safe:
+                raise ip.PyRaise(I.make_exc('TypeError', 'Cannot cast array from %s to %s according to the rule safe' % (src.name, dt.name)))
+            if casting == 'same_kind' and not same_kind:
+                raise ip.PyRaise(I.make_exc('TypeError', 'Cannot cast array according to the rule same_kind'))
+            if src.kind == dt.kind and src.kind in ('float', 'complex') and DT._SIZE[dt.name] < DT._SIZE[src.name] and fr is not None:
+                # values are rounded to lower precision: invisible over the reals (A1), recorded as an event
+                fr.st.events.append(('downcast', src.name, dt.name))
         if dt == self.buf.dtype and copy is False:
             return self
         if dt.kind in ('int', 'bool') and self.buf.dtype.kind in ('float', 'complex'):
